@@ -105,11 +105,18 @@ CHECKS = {
              "compatible with the current holders; a lock() that fails changes no holder set and leaves the caller out of the wait queue; a "
              "quiescence point is accepted only if no free rwlock has parked waiters. Tied to the code by generated programs on the real "
              "runtime on a virtual clock, grants and the real `state` word compared with the model's holder sets at every quiescence point; "
-             "an independent occupancy oracle supplies failing programs",
-        note="trusted: Lean kernel + 3 standard axioms; single vCPU; ONLY photon::rwlock is covered - qrwlock (lock-free fast path, needs "
-             "the multi-vCPU harness) is not modelled and that half of the property is not claimed; fairness among waiters (readers queue "
-             "behind a waiting writer) is exercised, not specified",
-        technique="Lean 4 inductive invariant over an acceptor of hook/API event traces + deterministic simulation of the real runtime",
+             "an independent occupancy oracle supplies failing programs. For photon::qrwlock (and photon::rwlock a second time) an API-level "
+             "specification automaton with theorems over all accepted histories: writers exclusive (inductive invariant), grants compatible, a "
+             "failed lock changes no holder and fails only for a reason (try_lock: an incompatible holder; lock: its timeout expired), and at a "
+             "quiescence point a free lock has nobody blocked in lock() (after the last holder unlocks the waiters are admitted); tied to the "
+             "code by generated programs with timed locks, try_lock, yields, sleeps and CPU-bound stretches of virtual time",
+        note="trusted: Lean kernel + 3 standard axioms; single vCPU: qrwlock's lock-free fast path and its spinlock are NOT exercised across "
+             "vCPUs (on one vCPU every lock operation is atomic between two blocking points, which is what makes the API-level automaton a "
+             "sound oracle); thread_interrupt of a qrwlock waiter is not generated; fairness among waiters (readers queue behind a waiting "
+             "writer in rwlock; no starvation prevention in qrwlock) is exercised, not specified; a reader blocked while only readers hold a "
+             "qrwlock (after a barging reader) is not counted - the statement speaks about the moment the last holder unlocks",
+        technique="Lean 4 inductive invariants over an acceptor of hook/API event traces and over an API-level specification automaton + "
+                  "deterministic simulation of the real runtime",
         design="§5 C06"),
     "C07": dict(
         text="Lean 4 refinement theorem for the ring queues' sequential semantics: with head/tail claim counters and slots addressed by "
